@@ -138,7 +138,7 @@ def run(unit, repo=REPO, tag=None):
     return {'unit': unit, 'status': 'failed' if fails else 'verified', 'reachability_guard': reach,
             'verified': res['verified'], 'errors': res['errors'], 'failures': fails,
             'cmd': res['cmd'], 'smt_ms': res['smt_ms'], 'total_ms': res['total_ms'], 'wall_s': res['wall_s'],
-            'functions_under_contract': info['contracted'], 'loops_under_contract': info['loops_contracted'],
+            'functions_under_contract': info['contracted'], 'loops_under_contract': info['loops_contracted'], 'bridged_contracts': info.get('bridged_contracts'),
             'rewrites': ex['notes'], 'legend': ex.get('legend'), 'assumptions_scanned': prop_parser.scan_assumptions(text),
             'per_function_ms': {k: round(v['ms'], 1) for k, v in sorted(res['func_times'].items())}}
 
